@@ -80,6 +80,7 @@ pub fn replay(id: &str, case: &serde_json::Value) -> Option<Result<(), String>> 
 pub fn child(name: &str, args: &[String]) -> Option<i32> {
     Some(match name {
         "c02" => c02::child(args),
+        "c01deep" => c01::child_deep(),
         "c11sweep" => c11::child_sweep(args),
         "c11exit" => c11::child_exit(),
         "c11deep" => c11::child_deep(),
